@@ -100,6 +100,8 @@ var specStructs = [][2]string{
 	{"tlb.TransactionDescr", "TransactionDescr"},
 	{"tlb.HashUpdate", "HashUpdate"},
 	{"tlb.Transaction", "Transaction"},
+	{"wallet.W5Actions", "OutList"}, {"wallet.W5ExtendedAction", "W5ExtendedAction"},
+	{"wallet.W5ExtendedActions", "W5ExtendedActions"}, {"wallet.MessageV5", "WalletV5R1Body"},
 }
 
 func genC04(g *h.G) {
